@@ -279,6 +279,15 @@ class Generator:
                 if n == 0:
                     raise GenError(f'lost-anchor: RCALL site {rw[2]}.{meth} not found in {u.fnpath}')
                 applied.append(f'RCALL {rw[2]}.{meth} -> {func} x{n}')
+            elif kind == 'RBSTR':
+                # byte-string literal b"..." -> the same bytes as an array-literal reference &[b0, b1, ..] (Verus knows array
+                # literal views, not byte-string literal views); computed mechanically from the literal's value
+                n = 0
+                for b in fn['bytestrs']:
+                    if inside(b['span'], span):
+                        add_edit(b['span'][0], b['span'][1], '&[' + ', '.join(f'{x}u8' for x in b['bytes']) + ']', 'RBSTR')
+                        n += 1
+                applied.append(f'RBSTR x{n}')
             elif kind == 'RXPR':
                 # whole method-call expression (e.g. an iterator-adapter chain) whose normalised text equals rw[1] -> replacement text
                 want, rep = normtok(rw[1]), rw[2]
@@ -356,6 +365,9 @@ class Generator:
             if b[0] < a[1]:
                 raise GenError(f'unsupported: overlapping rewrites in {u.fnpath}: {a[3]} / {b[3]}')
 
+        arm_tail = (u.kind == 'arm' and u.tail and not wrap)
+        if arm_tail:
+            self.emit('{\n', ('gen', 'wrap'))
         if wrap:
             self.emit('{\n', ('gen', 'wrap'))
         pos = span[0]
@@ -377,6 +389,8 @@ class Generator:
             if u.tail:
                 self.emit('\n/*@*/ ' + u.tail, ('tmpl', u.tmpl, u.tline))
             self.emit('\n}\n', ('gen', 'wrap'))
+        elif arm_tail:
+            self.emit(';\n/*@*/ ' + u.tail + '\n}\n', ('tmpl', u.tmpl, u.tline))
         else:
             self.emit('\n', ('gen', 'nl'))
         u.meta.update({
